@@ -5,6 +5,7 @@ from . import excel_rules as E
 def run(cx):
     E.samples_pipeline(cx)
     E.units_dispatch(cx)
+    E.fault_table(cx)          # the settings checks of the MEF branch decide whether a row is processed at all
     E.beads_pipeline(cx)
     E.stats_table(cx)
     E.histograms_table(cx)
